@@ -21,6 +21,7 @@ macro_rules! props {
 pub mod asmcheck;
 pub mod asmrun;
 pub mod objrt;
+pub mod linksrc;
 pub mod simcmp;
 pub mod simfam;
 pub mod osinfo;
